@@ -319,10 +319,10 @@ Fixpoint assoc_N {A} (k : N) (l : list (N * A)) : option A :=
   | (k', v) :: r => if N.eqb k k' then Some v else assoc_N k r
   end.
 
-(* getLinkSource + os.Link / copyFile *)
-Definition copy_regular (c : ctx) (src target : bytes) (ino : N) : M unit :=
-  f0 <~ get_fs ;;
-  if N.ltb 1 (nlink f0 ino) then
+(* getLinkSource + os.Link / copyFile.  [multi]: st_nlink > 1 in the Lstat result copier.copy took at
+   its start (NOT the link count now: removing the target may have removed a name of the source inode) *)
+Definition copy_regular (c : ctx) (src target : bytes) (ino : N) (multi : bool) : M unit :=
+  if multi then
     links <~ get_links ;;
     match assoc_N ino links with
     | Some first => r <~ sys (fun f => sys_link c f first target) ;; expect_ok r
@@ -418,6 +418,7 @@ Fixpoint copy_rec (fuel : nat) (c : ctx) (o : copts) (sl : selector) (src comps 
   match fuel with
   | O => fail E_FUEL
   | S k =>
+    f_at <~ get_fs ;;
     r <~ sys (fun f => sys_lstat c f src) ;;
     match r with
     | RStat ino fi =>
@@ -451,7 +452,7 @@ Fixpoint copy_rec (fuel : nat) (c : ctx) (o : copts) (sl : selector) (src comps 
           | _ => fail E_SYS
           end
         | KFile _ =>
-          copy_regular c src target ino ;;;
+          copy_regular c src target ino (N.ltb 1 (nlink f_at ino)) ;;;
           finish_meta c o fi src target
         | KLink _ =>
           l <~ sys (fun f => sys_readlink c f src) ;;
